@@ -200,7 +200,7 @@ Record wstate := {
   w_dirs : list string;
   w_files : list (string * string);      (* dst, data *)
   w_manifest : string;
-  w_f11 : bool; w_f16 : bool; w_f17 : bool; w_f18 : bool; w_f19 : bool   (* trigger flags of the known findings *)
+  w_f11 : bool; w_f16 : bool; w_f18 : bool   (* trigger flags of the known findings *)
 }.
 Inductive status := SOk | SErr | SPanic | SUnmodelled.
 Definition wres := (wstate * status)%type.
@@ -234,22 +234,19 @@ Definition sorted_names (ents : list (string * node)) : list string := fold_righ
 
 Definition add_manifest (st : wstate) (t : string) : wstate :=
   {| w_dirs := w_dirs st; w_files := w_files st; w_manifest := w_manifest st ++ t;
-     w_f11 := w_f11 st; w_f16 := w_f16 st; w_f17 := w_f17 st; w_f18 := w_f18 st; w_f19 := w_f19 st |}.
+     w_f11 := w_f11 st; w_f16 := w_f16 st; w_f18 := w_f18 st |}.
 Definition add_dirp (st : wstate) (d : string) : wstate :=
   {| w_dirs := (w_dirs st ++ [d])%list; w_files := w_files st; w_manifest := w_manifest st;
-     w_f11 := w_f11 st; w_f16 := w_f16 st; w_f17 := w_f17 st; w_f18 := w_f18 st; w_f19 := w_f19 st |}.
+     w_f11 := w_f11 st; w_f16 := w_f16 st; w_f18 := w_f18 st |}.
 Definition add_filep (st : wstate) (dst data : string) : wstate :=
   {| w_dirs := w_dirs st; w_files := (w_files st ++ [(dst, data)])%list; w_manifest := w_manifest st;
-     w_f11 := w_f11 st; w_f16 := w_f16 st; w_f17 := w_f17 st; w_f18 := w_f18 st; w_f19 := w_f19 st |}.
-Definition set_flags (st : wstate) (a b c : bool) : wstate :=
+     w_f11 := w_f11 st; w_f16 := w_f16 st; w_f18 := w_f18 st |}.
+Definition set_flags (st : wstate) (a b : bool) : wstate :=
   {| w_dirs := w_dirs st; w_files := w_files st; w_manifest := w_manifest st;
-     w_f11 := w_f11 st || a; w_f16 := w_f16 st || b; w_f17 := w_f17 st || c; w_f18 := w_f18 st; w_f19 := w_f19 st |}.
+     w_f11 := w_f11 st || a; w_f16 := w_f16 st || b; w_f18 := w_f18 st |}.
 Definition set_f18 (st : wstate) : wstate :=
   {| w_dirs := w_dirs st; w_files := w_files st; w_manifest := w_manifest st;
-     w_f11 := w_f11 st; w_f16 := w_f16 st; w_f17 := w_f17 st; w_f18 := true; w_f19 := w_f19 st |}.
-Definition set_f19 (st : wstate) (x : bool) : wstate :=
-  {| w_dirs := w_dirs st; w_files := w_files st; w_manifest := w_manifest st;
-     w_f11 := w_f11 st; w_f16 := w_f16 st; w_f17 := w_f17 st; w_f18 := w_f18 st; w_f19 := w_f19 st || x |}.
+     w_f11 := w_f11 st; w_f16 := w_f16 st; w_f18 := true |}.
 
 (* the part of walkMount that does not recurse into the host walk: mounts other than "tmp" *)
 Definition walk_mount_static (cf : config) (st : wstate) (dest src : string) (rm : string * mount) : wres :=
@@ -341,24 +338,20 @@ Section Copier.
           else
             (* ---- walkHostFS ---- *)
             bind (if below then walk_mounts_below wm_static st dest src else ok st) (fun st =>
-              if Nat.ltb (String.length src) (String.length (c_ctr cf)) then (set_flags st false false true, SPanic)
+              (* commit d81649d: only the output directory's own tmp mount is read from the host *)
+              if negb (has_prefix_dir (c_ctr cf) src) then (st, SErr)
               else
                 let suffix := drop (String.length (c_ctr cf)) src in
-                let inside := has_prefix_dir (c_ctr cf) src in
-                let st := set_flags st false false (negb inside) in
-                if negb (String.eqb suffix "" || is_abs suffix) then (st, SErr)       (* garbage sibling path: ENOENT *)
-                else
                 match host_lstat cf suffix with
                 | LErr => (st, SErr)
-                | LAbs => (set_flags st true false false, SErr)
+                | LAbs => (set_flags st true false, SErr)
                 | LUnknown => (st, SUnmodelled)
                 | LNode pos (Link target) =>
                     match b with
                     | O => (st, SErr)                                   (* errTooManySymlinks *)
                     | S b' =>
-                        let lexical := if is_abs target then target else fp_join [fp_dir src; target] in
-                        let st := set_flags st false (lexical_differs cf pos target lexical) false in
-                        let st := set_f19 st (is_abs target && negb (String.eqb (path_clean target) target)) in
+                        let lexical := if is_abs target then path_clean target else fp_join [fp_dir src; target] in
+                        let st := set_flags st false (lexical_differs cf pos target lexical) in
                         walk b' (depth_fuel cf) st dest lexical true true
                     end
                 | LNode pos (Dir ents) =>
@@ -383,7 +376,7 @@ Section Copier.
 End Copier.
 
 Definition empty_state : wstate :=
-  {| w_dirs := []; w_files := []; w_manifest := ""; w_f11 := false; w_f16 := false; w_f17 := false; w_f18 := false; w_f19 := false |}.
+  {| w_dirs := []; w_files := []; w_manifest := ""; w_f11 := false; w_f16 := false; w_f18 := false |}.
 (* cp.walkMount("", cp.ctrOutputDir, limitFollowSymlinks = 10, true) *)
 Definition walk_all (cf : config) : wres := walk cf 11 (depth_fuel cf) empty_state "" (c_ctr cf) true true.
 
